@@ -342,7 +342,7 @@ def gen_load(tier, rng):
             cases.append({"kind": kind, "doc": to_tag(d)})
             ms = mutants(d, rng, full)
             if not full:
-                keep = 75
+                keep = 60
                 ms = rng.sample(ms, keep) if len(ms) > keep else ms
             cases += [{"kind": kind, "doc": to_tag(m)} for m in ms]
             # a document of one kind handed to the loader of another kind
@@ -359,7 +359,7 @@ def gen_coll(tier, rng):
             cases.append({"kind": kind, "doc": to_tag(docs), "lib": False})
         ms = mutants(docs, rng, full)
         if not full:
-            ms = rng.sample(ms, 60) if len(ms) > 60 else ms
+            ms = rng.sample(ms, 45) if len(ms) > 45 else ms
         elif len(ms) > 2500:
             ms = rng.sample(ms, 2500)
         for m in ms:
@@ -532,7 +532,10 @@ def prop_to_coq(c, r):
 
 
 def harness_oracle(c, r):
-    return "implementation runner failed: " + str(r) if "exc" in r else None
+    if "exc" in r: return "implementation runner failed: " + str(r)
+    if r.get("first_eq") is False:
+        return "the first collected error is not equal (SigmaError.__eq__) to the exception strict loading raises"
+    return None
 
 
 def stratum(c, r):
@@ -540,11 +543,34 @@ def stratum(c, r):
     return f"{c['kind']}:{r['strict'][0]}/{r['collect'][0]}"
 
 
+def _to_py(t):
+    k = t[0]
+    if k == "n": return None
+    if k == "b": return bool(t[1])
+    if k == "i": return int(t[1])
+    if k == "f": return float(t[1])
+    if k == "s": return t[1]
+    if k == "d": return D.fromisoformat(t[1])
+    if k == "l": return [_to_py(x) for x in t[1]]
+    return {_to_py(a): _to_py(b) for a, b in t[1]}
+
+
 def mutate_case(c, rng):
+    """neighbourhood of a case for the violation search: one more mutation of the same document"""
     if "doc" not in c: return []
-    import json
-    doc = __import__("impl.c07", fromlist=["to_py"]).to_py(c["doc"]) if False else None
-    return []
+    try:
+        doc = _to_py(c["doc"])
+        ms = mutants(doc, rng, False)
+    except Exception:
+        return []
+    ms = rng.sample(ms, min(len(ms), 150))
+    out = []
+    for m in ms:
+        try:
+            out.append(dict(c, doc=to_tag(m)))
+        except TypeError:
+            pass
+    return out
 
 
 REQ = ["Base.Chars", "Base.Outcome", "Model.Yaml", "Model.Loader", "Spec.LoaderSpec", "Run.C07run"]
@@ -552,9 +578,9 @@ PROPERTY = Property(
     pid="C07", props_file="Props/C07.v",
     suites=[
         Suite("load", gen_load, "run_load", REQ, "judge_load", load_to_coq, known=known_load, py_oracle=harness_oracle,
-              stratum=stratum, shard=500),
+              mutate=mutate_case, stratum=stratum, shard=500),
         Suite("coll", gen_coll, "run_load", REQ, "judge_prop", prop_to_coq, known=known_coll, py_oracle=harness_oracle,
-              stratum=stratum, shard=800),
+              mutate=mutate_case, stratum=stratum, shard=800),
         Suite("yaml", gen_yaml, "run_yaml", REQ, "judge_prop", prop_to_coq, known=known_yaml, py_oracle=harness_oracle,
               stratum=stratum, shard=800),
     ],
